@@ -23,7 +23,9 @@ ASSUMPTIONS = [
     "one-sided operations carry increasing MPI tags (real next_tag), used to state FIFO order",
 ]
 BOUNDS = {"quick": {"am_2tags": "2 tags, window 1, pool 2, 1 progress", "am_win2": "1 tag, window 2, pool 3, 1 progress",
-                    "onesided": "1 tag, window 1, pool 1, 1 dynamic slot, <=2 put/get, 1 progress", "init": "2 tags, window 2, pool 3"},
+                    "onesided": "1 tag, window 1, pool 1, 1 dynamic slot, <=2 put/get, 1 progress", "init": "2 tags, window 2, pool 3",
+                    "step_dyn3 / step_dyn4 / step_dyn3_q1": "ONE progress call from a directly built pre-state: 1 tag + dynamic region full of 3 (4) active "
+                                                             "one-sided requests (+1 queued), any completion subset of all active requests"},
           "thorough": {"am_2steps": "1 tag, window 1, pool 2, 2 progress calls", "onesided_2slots": "2 dynamic slots, receive share 1, <=2 operations"}}
 F = ["mpi_no_thread_tag_register", "parsec_ce_rebuild_am_requests", "mpi_funnelled_set_am_request_slot", "mpi_no_thread_progress",
      "mpi_no_thread_serve_cb", "mpi_funnelled_refill_am_requests", "mpi_no_thread_push_posted_req", "mpi_funnelled_append_dynamic_request",
@@ -53,15 +55,27 @@ def q(name, ntag, tested, posted, dyn, dynrecv, nstep, nops, tiers=("quick", "th
                    "functions": F})
 
 
+def step_q(name, dyn, nq, tiers=("quick", "thorough"), timeout=2400):
+    """One-step (inductive style) query: pre-state built directly = 1 tag (window 1, pool 1) + a dynamic region FULL of `dyn` active
+    one-sided requests (+ nq queued); one real mpi_no_thread_progress with a symbolic completion subset."""
+    qq = q(name, 1, 1, 1, dyn, dyn, 1, dyn + nq, tiers=tiers, timeout=timeout)
+    qq.defs += ["ONESTEP=1", "NQ=%d" % nq]
+    qq.info = dict(qq.info, symbolic=["the subset of ALL active requests (AM + %d dynamic) completed by the one MPI_Testsome" % dyn],
+                   bounds=dict(qq.info["bounds"], style="one step from a directly built pre-state", queued=nq))
+    return qq
+
+
 def queries(ctx):
     qs = [q("init_nexttag", 2, 2, 3, 2, 1, 0, 1, slow=False),
           q("am_2tags", 2, 1, 2, 1, 1, 1, 0),
           q("am_win2", 1, 2, 3, 1, 1, 1, 0),
-          q("onesided", 1, 1, 1, 1, 1, 1, 2)]
+          q("onesided", 1, 1, 1, 1, 1, 1, 2),
+          step_q("step_dyn3", 3, 0), step_q("step_dyn4", 4, 0), step_q("step_dyn3_q1", 3, 1)]
     if ctx.thorough:
         T = ("thorough",)
         qs.append(q("am_2steps", 1, 1, 2, 1, 1, 2, 0, tiers=T, timeout=3400))
         qs.append(q("onesided_2slots", 1, 1, 1, 2, 1, 1, 2, tiers=T, timeout=3400))
+        qs.append(step_q("step_dyn4_q1", 4, 1, tiers=T, timeout=3400))
     return qs
 
 
@@ -74,6 +88,10 @@ def mutants(ctx):
                "(cb->tag_reg->am_backend_memory + cb->tag_reg->msg_length * (cb->storage1 - cb->tag_reg->start_idx)) : NULL;", queries=["am_win2"]),
         Mutant("am_flag_not_cleared", U, "        cb->tag_reg->reqs_in_testsome[cb->storage2] = false;\n", "", queries=["am_win2", "am_2tags"]),
         Mutant("recv_counter_not_decremented", U, "            if (cb->is_dynamic_recv) {\n                mpi_funnelled_num_recv_req_in_arr--;\n            }", "", queries=["onesided"]),
+        Mutant("dynamic_compaction_ascending", U, "        for( idx = outcount-1; idx >= 0; idx-- ) {", "        for( idx = 0; idx < outcount; idx++ ) {",
+               queries=["step_dyn3", "step_dyn4"]),
+        Mutant("compaction_keeps_stale_slot_index", U, "                array_of_callbacks[pos].storage1 = pos;\n            }\n            array_of_requests[mpi_funnelled_last_active_req] = MPI_REQUEST_NULL;",
+               "            }\n            array_of_requests[mpi_funnelled_last_active_req] = MPI_REQUEST_NULL;", queries=["step_dyn3"]),
         Mutant("next_tag_rollover_late", U, "    if( __tag > (MAX_MPI_TAG-k) ) {", "    if( __tag > (MAX_MPI_TAG) ) {", queries=["init_nexttag"]),
     ]
     if ctx.thorough:   # needs two dynamic slots to be observable
@@ -92,7 +110,10 @@ MANIFEST = {
          "that request and is restarted exactly once; the tested windows stay full of distinct active receives of their own tag and agree "
          "with reqs_in_testsome; MPI_Testsome is never left without an active request; every one-sided put/get is posted exactly once, in "
          "submission order per queue, its completion callback runs once, none is lost or duplicated, the receive share is respected; "
-         "next_tag hands out disjoint ranges within MAX_MPI_TAG.",
+         "next_tag hands out disjoint ranges within MAX_MPI_TAG. One-step queries (pre-state built directly: dynamic region full of 3 or 4 "
+         "active one-sided requests, optionally one queued) show for ANY subset completed by one MPI_Testsome that each completed request's "
+         "callback runs once with its own arguments, every pending request stays exactly once in the array with its own callback record "
+         "naming its new slot, the active count drops by the number completed and a queued request is posted exactly once into a freed slot.",
  "note": "bounds are small because the engine's state is arrays of structs indexed at run time (measured: 2 tags/window 1/pool 2/one "
          "progress = 150-300 s, 5 GB; anything with 2 dynamic slots and 3 operations or 2 tags with window 2 runs out of 10-12 GB): "
          "<=2 tags, window <=2, pool <=3, 1 dynamic slot (2 in the thorough tier), <=2 one-sided operations, 1 progress call (2 thorough). "
